@@ -250,10 +250,21 @@ class Simulator(Computer, _mixins.CodeMixin):
                     f"not support 'shots=None' using '{self.__class__.__name__}'."
                 )
 
+    def _validate_instruction_parameters(self, instructions: List[Instruction]) -> None:
+        if not self.config.validate:
+            return
+
+        for instruction in instructions:
+            # NOTE: Outcome-dependent parameters can only be validated during
+            # execution, after they are resolved.
+            if instruction._is_resolved():
+                instruction._validate(self._connector)
+
     def _validate_instructions(self, instructions: List[Instruction], d: int) -> None:
         self._validate_instruction_existence(instructions)
         self._validate_instruction_modes(instructions, d)
         self._validate_instruction_order(instructions)
+        self._validate_instruction_parameters(instructions)
 
     def _validate_initial_state(self, initial_state: State, d: int) -> None:
         if not isinstance(initial_state, self._state_class):
